@@ -1,7 +1,39 @@
 # Per-property configuration of the driver: stages (tests), shard/case counts per tier, evidence texts.
 # stage[tier] = (shards, cases per shard)
 
+_C02ENV = dict(VERIF_AS="C02", VERIF_REPLICAS="3")
+
+
+def _c02(test, pkg, quick, thorough):
+    return dict(test=test, pkg=pkg, quick=quick, thorough=thorough, timeout=dict(quick=900, thorough=3400), env=dict(_C02ENV))
+
+
 PROPS = {
+    "C02": dict(
+        stages=[
+            _c02("TestC01", "props", (2, 15), (4, 700)),
+            _c02("TestC10", "props", (3, 12), (4, 700)),
+            _c02("TestC03Chain", "props", (2, 10), (3, 500)),
+            _c02("TestC08", "props", (3, 12), (4, 700)),
+            _c02("TestC07", "c07", (2, 15), (3, 700)),
+            _c02("TestC15Chain", "c15", (2, 8), (3, 400)),
+            _c02("TestC17", "c17", (2, 12), (2, 600)),
+            _c02("TestC14", "c14", (2, 10), (2, 500)),
+            _c02("TestC20Loop", "c20", (2, 3), (3, 120)),
+        ],
+        rule="union profile: the histories generated for C01, C03 (corrupted signature shares), C07, C08, C10, C14, C15, C17 and C20 (valid and "
+             "invalid messages of oracle, tss, bandtss, feeds, tunnel, restake with boundary and adversarial field values, dt from 0 to minutes) "
+             "are executed on 3 replicas of the real application (separate DB, home dir and VM) in one process; non-trivial = successful "
+             "transactions of >=2 of the custom modules AND >=1 end block that did cross-module work (resolve, aggregate/fail/assign signing, "
+             "tunnel packet, price update, penalty, transition) AND replicas compared on every block; distinct = hash of case JSON",
+        explanation="totality: FinalizeBlock of every replica must return without error or panic for every generated block; determinism: after every "
+                    "block all replicas must agree on the app hash and, per transaction, on code, codespace, gas wanted/used, data and the full event "
+                    "list (Go randomises map iteration per range statement, so replicas in one process traverse maps in different orders). "
+                    "Failures of the donor properties' own oracles are ignored here (counted), only engine-level failures count.",
+        assumptions=["block execution is sequential inside a node, so map-iteration order is the relevant schedule; goroutine schedules are not varied",
+                     "raw undecodable transaction bytes are outside the statement", "histories that write state directly (keeper-level set-up) stop being compared from that point (class tainted-by-direct-write)"],
+        nt_floor=0.2,
+    ),
     "C01": dict(
         stages=[dict(test="TestC01", quick=(16, 40), thorough=(16, 2500), timeout=dict(quick=600, thorough=3300))],
         rule="case = validator set (3-7, some inactive), expiration 1..6|20, max report size, and a list of 15-60 late-bound ops "
@@ -119,6 +151,18 @@ PROPS = {
                     "is never deactivated; nobody is active without an explicit activation. Converses are counted only.",
         assumptions=["price age pinned strict (ts + interval < now is a miss), 'active before the request' strict; exact end of grace/penalty accepts both outcomes",
                      "whole-second block times; validators always bonded"],
+        nt_floor=0.2,
+    ),
+    "C16": dict(
+        stages=[dict(test="TestC16", pkg="c16", quick=(16, 18), thorough=(16, 2000), timeout=dict(quick=900, thorough=3400))],
+        rule="case = 2-4 accounts, 2-3 bonded rate-1 validators, genesis AllowedDenoms in {[uband],[uband,uatom],[],[uatom]}, and 20-60 late-bound ops "
+             "(stake/unstake multi-denom, delegate/undelegate/redelegate/full removal, lock updates from vaults feeds (real MsgVote) / feedsx / tunnel / a "
+             "(keeper level), vault deactivation, allowed-denom change through gov) with amounts at lock-1/lock/lock+1, 0, 2^63, 2^64-1; non-trivial = "
+             "an account with >=2 active vaults of different locks AND a withdrawal rejected while leaving exactly maxLock-1; distinct = hash of case JSON",
+        explanation="big.Int model of total power and locks: successful withdrawal => total power >= largest active lock; rejected op => full snapshot "
+                    "(restake stores, delegations, unbondings, balances) unchanged; SetLockedPower succeeds => power <= total and vault active; "
+                    "deactivated vault never active again and never constrains; by-power index == one entry per lock; module balance == sum of stakes",
+        assumptions=["no slashing; validators stay bonded at rate 1 (checked every step)", "vaults other than feeds are driven at keeper level in a cache context"],
         nt_floor=0.2,
     ),
     "C17": dict(
